@@ -43,7 +43,10 @@ GCOPS = dict(FULL, ops=["rename", "values", "pg_add", "pg_rm", "pg_del", "move",
 # FULL without deferred creation: an entity created with save_on_creation=False reaches the
 # file during some LATER operation, which legitimately widens that operation's footprint (C09)
 FULLND = dict(FULL, defer=False)
-ALPHAS = {"FULLND": FULLND, "FULL": FULL, "STRUCT": STRUCT, "EDIT": EDIT, "DEL": DEL, "DELCORE": DELCORE, "IDS": IDS, "GCOPS": GCOPS}
+# refused creations (identifier in use) followed by GC / re-open: a refusal must leave no trace
+IDGC = dict(FULL, ops=["mk_group", "rename", "gc", "reopen"], uid_reuse=True, defer=False, pg_foreign=False, retype=False, ws2=False,
+            caps={"groups": 3, "objects": 2, "data_per_object": 2, "entities": 8})
+ALPHAS = {"IDGC": IDGC, "FULLND": FULLND, "FULL": FULL, "STRUCT": STRUCT, "EDIT": EDIT, "DEL": DEL, "DELCORE": DELCORE, "IDS": IDS, "GCOPS": GCOPS}
 
 DROP_ASC = {"uid_order": "asc", "policy": "drop"}
 HOLD_DESC = {"uid_order": "desc", "policy": "hold"}
